@@ -273,7 +273,21 @@ def prop_C14(run):
                       "INC3 include stack and #once", "INC4 range tests dominate the slice", "LIM2 on the range arithmetic"]
 
 
+def prop_C15(run):
+    import rules_sym, rules_mpt
+    rules_sym.declare_rules(run)
+    rules_sym.lookup_rules(run)
+    rules_sym.walker_rules(run)
+    rules_sym.use_rules(run)
+    rules_sym.parse_rules(run)
+    rules_mpt.pipeline(run)
+    run.rules_run += ["SYM declare: level test, duplicate test and insertion use one scope expression", "SYM lookup: scope = enclosing[0..level], descent name by name, unknown is an error",
+                      "SYM walkers: sibling AST walkers update the context on every Symbol node", "SYM use: lookups use the context of the point of use; unresolved is an error on the last pass",
+                      "SYM parse: one level per dot", "PIPE: all symbols are declared before anything is resolved"]
+
+
 PROPS = {
+    "C15": prop_C15,
     "C14": prop_C14,
     "C01": prop_C01,
     "C06": prop_C06,
